@@ -799,7 +799,7 @@ func TestVerifC14(t *testing.T) {
 	defer mem.Close()
 	mem.SetMaxOpenConns(1)
 
-	n := vfScale(2500, 120000)
+	n := vfScale(2500, 600000)
 	var ops, impl []string
 	var filterOps, filterImpl []string
 	type evalItem struct{ text, first string }
@@ -934,11 +934,76 @@ func TestVerifC14(t *testing.T) {
 		check(text, map[string]bool{"corpus": true}, true, true, false)
 	}
 
+	// one statement TEXT holding several statements (the driver executes them all)
+	multi := vfScale(300, 60000)
+	for i := 0; i < multi+3; i++ {
+		g := &c14Gen{r: r, forms: map[string]bool{}}
+		var parts []string
+		for k := 2 + r.Intn(2); k > 0; k-- {
+			parts = append(parts, g.statement())
+		}
+		text := strings.Join(parts, r.Pick([]string{"; ", ";\n", " ; "}))
+		switch i {
+		case 0:
+			text = "INSERT INTO t(a) VALUES(random()); INSERT INTO t(a) VALUES(2)"
+		case 1:
+			text = "INSERT INTO t(a) VALUES(1); INSERT INTO t(a) VALUES(random())"
+		case 2:
+			text = "INSERT INTO t(a) VALUES(1); INSERT INTO t(a) VALUES(2);"
+		}
+		orig, err := rsql.NewParser(strings.NewReader(text)).ParseStatements()
+		if err != nil || len(orig) < 2 {
+			rep.Count("multi:parser-rejects")
+			continue
+		}
+		rep.Count("multi-statement-text")
+		st := []*proto.Statement{{Sql: text}}
+		replay := map[string]interface{}{"sql": text}
+		if err := Process(st, true, true); err != nil {
+			rep.Fail("process-error", fmt.Sprintf("Process(%q): %v", text, err), replay)
+			continue
+		}
+		replay["replicated"] = st[0].Sql
+		out, err := rsql.NewParser(strings.NewReader(st[0].Sql)).ParseStatements()
+		if err != nil {
+			rep.Fail("multi-statement-text:output-unparsable", fmt.Sprintf("%q -> %q: %v", text, st[0].Sql, err), replay)
+			continue
+		}
+		if len(out) != len(orig) {
+			rep.Fail("multi-statement-text:statements-lost", fmt.Sprintf("a text of %d statements is replicated as %d: %q -> %q", len(orig), len(out), text, st[0].Sql), replay)
+			continue
+		}
+		anyTarget := false
+		var left []string
+		hadNondet := false
+		for k := range orig {
+			bt, _ := c14Record(orig[k])
+			at, _ := c14Record(out[k])
+			if c14HasTargetCall(bt) {
+				anyTarget = true
+			}
+			var ndB []string
+			c14Nondet(bt, false, true, true, &ndB)
+			hadNondet = hadNondet || len(ndB) > 0
+			c14Nondet(at, false, true, true, &left)
+		}
+		rep.Case(text, hadNondet)
+		if len(left) > 0 {
+			rep.Fail(c14Sig("multi-statement-text:left", left, nil), fmt.Sprintf("%q is replicated as %q, still containing %v", text, st[0].Sql, left), replay)
+		}
+		if !anyTarget && st[0].Sql != text {
+			rep.Fail("multi-statement-text:changed-without-calls", fmt.Sprintf("%q -> %q", text, st[0].Sql), replay)
+		}
+		if st[0].ForceQuery {
+			rep.Fail("multi-statement-text:force-query", fmt.Sprintf("%q is marked ForceQuery: a query runs only the last statement of a text", text), replay)
+		}
+	}
+
 	rep.vfCompareSegments("rewrite", c14Chunks(ops, 400), c14Chunks(impl, 400))
 	rep.vfCompareSegments("rewrite", c14Chunks(filterOps, 400), c14Chunks(filterImpl, 400))
 
 	// meaning A: time-only closed statements evaluate like the original at the pinned instant
-	eq := vfScale(120, 3000)
+	eq := vfScale(120, 10000)
 	for i := 0; i < eq; i++ {
 		g := &c14Gen{r: r, forms: map[string]bool{}, closed: true, timeOnly: true}
 		text := "SELECT " + g.exprs(1+g.r.Intn(2), 1)
